@@ -462,6 +462,11 @@ func TestVerifDaemon(t *testing.T) {
 		})
 	}
 
+	if prop == "C07" {
+		scen("rs-real/normal", c07Real(r, dir, false))
+		scen("rs-real/unicast-only", c07Real(r, dir, true))
+	}
+
 	if prop == "C17" {
 		scen("scrape-while-link-down", func(id string, lg *rLog, p *probe) (string, string) {
 			_ = sh("ip", "link", "set", "va", "down")
@@ -484,7 +489,7 @@ func TestVerifDaemon(t *testing.T) {
 				return "debug HTTP server did not come up: " + lastLines(d.stderr.String(), 5), "inconclusive"
 			}
 			for i := 0; i < 3; i++ {
-				code, _, err := httpGet("/metrics")
+				code, mbody, err := httpGet("/metrics")
 				c2, _, err2 := httpGet("/_/api/interfaces")
 				lg.add(rEvent{Kind: "note", Text: fmt.Sprintf("link down: /metrics %d %v, API %d %v", code, err, c2, err2)})
 				time.Sleep(50 * time.Millisecond)
@@ -496,6 +501,12 @@ func TestVerifDaemon(t *testing.T) {
 				}
 				if err != nil || (code != 200 && code != 500) {
 					return fmt.Sprintf("/metrics before initialisation: %v status %d", err, code), "scrape"
+				}
+				if code == 200 {
+					// no error reported: then the scrape claims to be complete
+					if _, ok := metricValue(mbody, `corerad_interface_advertising{interface="va"}`); !ok {
+						return "/metrics answered 200 before initialisation but carries no sample for the configured interface (neither an error nor the current state)", "scrape-silently-incomplete"
+					}
 				}
 			}
 			_ = sh("ip", "-6", "addr", "add", "2001:db8:77::1/64", "dev", "va", "nodad")
